@@ -586,6 +586,8 @@ def rules(ck, P):
                     ck.check(not bad and not esc, "R-ALL-LEVELS", "%s|%s#%d" % (short_, bb_["q"].rsplit("::", 1)[-1], n_w), "%s walks every level of the advertised pyramid (iter_levels with %s)" % (short_, chain or "no adaptor"),
                              "%s does not walk every level of the advertised pyramid: iter_levels() is narrowed by %s%s" % (short_, bad, " and the loop has %s" % esc if esc else ""), ir.loc(n))
     ck.anchor("R-ALL-LEVELS", "iter_levels() sites in the writers", list(range(n_w)), 5)
+    # ... and iter_levels itself yields every non-empty level (a gap between populated zoom levels is legal): shared with C03 / C08
+    comp.pyramid_union_rule(ck, P, "R-ALL-LEVELS")
     # ---------------- R-NAME
     for fmt, adt, rdr in (("tar", "::TarTilesWriter", "tar::reader::TarTilesReader::open_path"), ("directory", "::DirectoryTilesWriter", "directory::reader::DirectoryTilesReader::open_path")):
         w = None
